@@ -302,7 +302,7 @@ class Builder:
             self.deploy2 = self.wf.create_step(DeployStep, name="/__deploy__/simlocal-b", deployment_config=self.cfg2)
         return self.cfg2, self.deploy2
 
-    def exec_step(self, name, inputs: dict, out_kind="file", width=0, site_b=False):
+    def exec_step(self, name, inputs: dict, out_kind="file", width=0, site_b=False, transfer=True, union=False):
         wf = self.wf
         cfg, deploy, workdir = self.cfg, self.deploy, self.workdir
         if site_b:
@@ -315,12 +315,22 @@ class Builder:
         ex.command = SimCommand(ex, out_kind=out_kind, width=width)
         for key, port in inputs.items():
             sched.add_input_port(key, port)
+            if not transfer:
+                # inputs wired straight into the execute step (no staging): they keep flowing whatever happens to the job port
+                ex.add_input_port(key, port)
+                continue
             tr = wf.create_step(SimTransferStep, name=posixpath.join(name, "__transfer__", key), job_port=sched.get_output_port())
             tr.add_input_port(key, port)
             tr.add_output_port(key, wf.create_port())
             ex.add_input_port(key, tr.get_output_port(key))
         out = wf.create_port()
-        ex.add_output_port("out", out, SimOutputProcessor("out", wf, out_kind=out_kind))
+        proc = SimOutputProcessor("out", wf, out_kind=out_kind)
+        if union:
+            # what the CWL translator installs for union output types
+            from streamflow.core.processor import UnionCommandOutputProcessor
+
+            proc = UnionCommandOutputProcessor("out", wf, processors=[proc])
+        ex.add_output_port("out", out, proc)
         return out
 
     def scatter(self, name, port):
